@@ -16,6 +16,7 @@ from props import c13_fix as F
 
 SRC = os.path.join(common.REPO, "src", "pydap") + os.sep
 TIMEOUT = 60
+INF = 10 ** 9
 
 
 class Baton:
@@ -74,17 +75,39 @@ class Baton:
             self.cv.notify_all()
 
 
-def run_schedule(app, urls, plan):
-    """returns (outcomes, points per thread, preemptions)"""
+def run_schedule(app, urls, plan, gran="call", record=None, probe=None):
+    """returns (outcomes, points per thread, preemptions).
+
+    gran="call": preemption points are the `call` events of pydap frames (function entry, generator resume);
+    gran="line": additionally every `line` event of a pydap frame, i.e. a thread can be switched out between any
+    two source lines of any pydap function.  `record` (a list per thread) receives (filename, function, lineno) of
+    every point; `probe(t, k)` is called at every point before the scheduling decision (used to find the lines
+    that write module-level state)."""
     n = len(urls)
     baton = Baton(n, plan)
     outs = [None] * n
     errs = []
+    line = gran == "line"
 
     def worker(t):
+        rec = record[t] if record is not None else None
+
+        def at(frame):
+            if rec is not None:
+                rec.append((frame.f_code.co_filename[len(SRC):], frame.f_code.co_name, frame.f_lineno))
+            if probe is not None:
+                probe(t, baton.points[t])
+            baton.point(t)
+
+        def local(frame, event, arg):
+            if event == "line":
+                at(frame)
+            return local
+
         def tracer(frame, event, arg):
             if event == "call" and frame.f_code.co_filename.startswith(SRC):
-                baton.point(t)
+                at(frame)
+                return local if line else None
             return None
         try:
             with baton.cv:
@@ -113,48 +136,57 @@ def run_schedule(app, urls, plan):
     return outs, baton.points, baton.preemptions
 
 
-def solo_points(spec, url):
+def solo_points(spec, url, gran="call", record=None, probe=None):
     app = F.make_app(spec)[0]
-    outs, pts, _ = run_schedule(app, [url], [])
+    outs, pts, _ = run_schedule(app, [url], [], gran=gran, record=[record] if record is not None else None,
+                                probe=probe)
     return outs[0], pts[0]
 
 
-def check_schedule(ctx, spec, urls, plan, solo, where):
+def check_schedule(ctx, spec, urls, plan, solo, where, gran="call"):
     app, handler, ds = F.make_app(spec)
     snap = F.snapshot(ds)
-    outs, pts, pre = run_schedule(app, urls, plan)
-    case = {"oracle": "schedule", "spec": spec, "urls": urls, "plan": [list(p) for p in plan]}
+    outs, pts, pre = run_schedule(app, urls, plan, gran=gran)
+    case = {"oracle": "schedule", "gran": gran, "spec": spec, "urls": urls, "plan": [list(p) for p in plan]}
     bad = False
     for t, (got, exp) in enumerate(zip(outs, solo)):
         if got != exp:
-            ctx.oracle_fail("response depends on the thread schedule", dict(case, thread=t), F.show(got), F.show(exp),
-                            size=len(repr(spec)) + 60 * len(urls) + sum(k for _, k in plan))
+            ctx.oracle_fail("response depends on the thread schedule (%s granularity)" % gran, dict(case, thread=t),
+                            F.show(got), F.show(exp),
+                            size=200000 + len(repr(spec)) + 60 * len(urls) + 10 * len(plan)
+                            + min(sum(k for _, k in plan if k < INF), 50000) // 100)
             bad = True
             break
     if not bad and F.snapshot(ds) != snap:
         ctx.oracle_fail("served dataset changed by concurrent requests", case, "snapshot differs", "unchanged",
                         size=len(repr(spec)) + 60 * len(urls))
         bad = True
-    ctx.count(("sched", repr(spec), tuple(urls), tuple(map(tuple, plan))), pre >= 1,
-              tag="%s:threads=%d:preemptions=%d" % (where, len(urls), min(pre, 3)),
-              sample={"urls": urls, "plan": plan[:3], "points": pts})
+    ctx.count(("sched", gran, repr(spec), tuple(urls), tuple(map(tuple, plan))), pre >= 1,
+              tag="%s:%s:threads=%d:preemptions=%d" % (where, gran, len(urls), min(pre, 3)),
+              sample={"urls": urls, "gran": gran, "plan": plan[:3], "points": pts})
     return not bad
 
 
 def replay_case(c):
     spec, urls, plan = c["spec"], c["urls"], [tuple(p) for p in c["plan"]]
+    gran = c.get("gran", "call")
     solo = [F.call(F.make_app(spec)[0], u) for u in urls]
     app, handler, ds = F.make_app(spec)
     snap = F.snapshot(ds)
-    outs, pts, pre = run_schedule(app, urls, plan)
+    rec = [[] for _ in urls]
+    outs, pts, pre = run_schedule(app, urls, plan, gran=gran, record=rec)
     ok = True
     for u, got, exp in zip(urls, outs, solo):
         if got != exp:
-            print("schedule %s: %s -> %s, alone -> %s" % (plan, u, F.show(got), F.show(exp)))
+            print("schedule %s (%s points): %s -> %s, alone -> %s" % (plan, gran, u, F.show(got), F.show(exp)))
             ok = False
     if F.snapshot(ds) != snap:
         print("schedule %s: served dataset changed" % (plan,))
         ok = False
+    if not ok:
+        for t, k in plan[:-1]:
+            if 0 <= k < len(rec[t]):
+                print("  thread %d (%s) switched out before %s:%s line %d" % ((t, urls[t]) + rec[t][k]))
     return ok
 
 
@@ -199,6 +231,10 @@ TINY_SPEC = {"name": "d", "attrs": {"title": "t"},
 TINY_GROUPS = [["/d.dods?s&s.i>1", "/d.dods?s.i"], ["/d.dods?a[1:2]", "/d.ascii?s.w&s.i<9"]]
 
 
+# lazy (IterData) sequences: hyperslab / selection / projection on the plain and on the ranged one
+LAZY_GROUPS = [["/d.dods?s[1:1:8]", "/d.ascii?r.g&r.j!=3"], ["/d.dods?r[1:1:8]", "/d.dods?s.i,s.w", "/d.ascii?s&s.i>1"]]
+
+
 class Rec(object):
     """stands in for ctx inside pool workers: records the calls, the parent replays them"""
 
@@ -223,11 +259,11 @@ def _solo(spec, url):
 
 
 def _job(job):
-    spec, urls, plans, where = job
+    spec, urls, plans, where, gran = job
     rec = Rec()
     solo = [_solo(spec, u) for u in urls]
     for plan in plans:
-        if not check_schedule(rec, spec, urls, plan, solo, where):
+        if not check_schedule(rec, spec, urls, plan, solo, where, gran=gran):
             break
     return rec.calls
 
@@ -236,60 +272,19 @@ def chunks(xs, n):
     return [xs[i:i + n] for i in range(0, len(xs), n)]
 
 
-def explore(ctx, tier, rng, specs, search=False):
+
+
+def strided(xs, budget, offset=0):
+    """at most ~budget elements of xs, evenly strided, starting at a seed-dependent offset"""
+    if len(xs) <= budget:
+        return xs, 1
+    stride = -(-len(xs) // budget)
+    return xs[offset % stride::stride], stride
+
+
+def run_jobs(ctx, jobs):
     import multiprocessing
 
-    quick = tier == "quick" and not search
-    jobs = []
-    notes = []
-    # warm-up in the parent (imports, regex and singledispatch caches) and the points of every request
-    for spec, groups, label in ((F.FIXED_SPEC, FIXED_GROUPS, "fixed"), (TINY_SPEC, TINY_GROUPS, "tiny")):
-        for gi, urls in enumerate(groups):
-            pts = []
-            for u in urls:
-                o, p = solo_points(spec, u)
-                ref = _solo(spec, u)
-                if o != ref:
-                    ctx.oracle_fail("response differs when run in a worker thread",
-                                    {"oracle": "schedule", "spec": spec, "urls": [u], "plan": []}, F.show(o), F.show(ref))
-                pts.append(p)
-            one = list(one_preemption_plans(pts))
-            tag = "one-preemption-exhaustive"
-            if quick and label == "fixed" and gi >= 2:
-                one, tag = one[gi % 8::8], "one-preemption-sampled"
-            for ch in chunks(one, 120):
-                jobs.append((spec, urls, ch, tag))
-            if label == "tiny":
-                # two preemptions: exhaustive on the tiny dataset in the thorough tier, a lattice in the quick tier
-                stride = 12 if quick else 1
-                two = list(two_preemption_plans(pts, stride=stride))
-                for ch in chunks(two, 150):
-                    jobs.append((spec, urls, ch, "two-preemptions-%s" % ("lattice" if stride > 1 else "exhaustive")))
-                notes.append("%s %s: points=%s one-preemption=%d two-preemption(stride %d)=%d"
-                             % (label, urls, pts, len(one), stride, len(two)))
-            else:
-                if not quick:
-                    stride = max(1, int((2.0 * pts[0] * pts[1] / 12000.0) ** 0.5))
-                    two = list(two_preemption_plans(pts[:2], stride=stride))
-                    for ch in chunks(two, 150):
-                        jobs.append((spec, urls[:2], ch, "two-preemptions-lattice"))
-                    notes.append("%s %s: points=%s one-preemption=%d two-preemption lattice stride %d=%d"
-                                 % (label, urls, pts, len(one), stride, len(two)))
-                else:
-                    notes.append("%s %s: points=%s one-preemption=%d" % (label, urls, pts, len(one)))
-    # random schedules with more preemptions, random datasets and request groups
-    n_random = 300 if quick else 8000
-    rnd = []
-    for i in range(n_random):
-        if i % 3 == 0:
-            spec, urls = F.FIXED_SPEC, rng.sample(F.FIXED_REQUESTS, rng.choice([2, 3]))
-        else:
-            spec = rng.choice(specs)
-            urls = [F.rand_request(rng, spec)[0] for _ in range(rng.choice([2, 2, 3]))]
-        plan = [(rng.randrange(len(urls)), rng.choice([0, 1, 2, 3, 5, 8, 13, 21, 34, 55, 89, rng.randint(0, 400)]))
-                for _ in range(rng.randint(2, 12))]
-        rnd.append((spec, urls, [plan], "random"))
-    jobs += rnd
     workers = max(2, min(14, (os.cpu_count() or 4) - 2))
     total = 0
     with multiprocessing.get_context("fork").Pool(workers) as pool:
@@ -299,4 +294,244 @@ def explore(ctx, tier, rng, specs, search=False):
                 if name == "count":
                     total += 1
     ctx.extra["schedules_run"] = ctx.extra.get("schedules_run", 0) + total
+    return total
+
+
+def explore(ctx, tier, rng, specs, search=False):
+    """Budgets (schedules; measured ~450 schedules/s on 14 workers):
+    quick   ~28 k: line-level one-preemption EXHAUSTIVE on the tiny pairs; call-level one-preemption exhaustive on
+                   two fixed pairs and every 12th point of the other fixed and the lazy groups; 150 seeded random line points per fixed
+                   group; a stride-14 lattice of call-level two-preemption schedules on the tiny pairs; 300 random
+                   multi-preemption schedules (half of them at line granularity).
+    thorough ~170 k: line-level one-preemption exhaustive on the tiny pairs and two fixed pairs, every 4th (3 threads:
+                   8th) line point (seeded offset) + every call point of the other fixed and the lazy groups;
+                   two-preemption call-level lattices capped at ~14 k per tiny pair and 3 k per other pair; 5000 random.
+    failing-input search (middle budget ~60 k): as quick but every 4th call point and 400 random line points per group,
+                   1500 random."""
+    quick = tier == "quick" and not search
+    full = tier == "thorough" and not search     # (the failing-input search uses the middle budget)
+    jobs = []
+    notes = []
+    off = rng.randrange(1 << 16)
+    # warm-up in the parent (imports, regex and singledispatch caches) and the points of every request
+    for spec, groups, label in ((F.FIXED_SPEC, FIXED_GROUPS, "fixed"), (TINY_SPEC, TINY_GROUPS, "tiny"),
+                                (F.LAZY_SPEC, LAZY_GROUPS, "lazy")):
+        for gi, urls in enumerate(groups):
+            if label == "lazy":
+                gi += 2         # sampled like the later fixed groups
+            pts, lpts = [], []
+            for u in urls:
+                o, p = solo_points(spec, u)
+                o2, p2 = solo_points(spec, u, gran="line")
+                ref = _solo(spec, u)
+                for oo, g in ((o, "call"), (o2, "line")):
+                    if oo != ref:
+                        ctx.oracle_fail("response differs when run in a traced worker thread",
+                                        {"oracle": "schedule", "gran": g, "spec": spec, "urls": [u], "plan": []},
+                                        F.show(oo), F.show(ref))
+                pts.append(p)
+                lpts.append(p2)
+            one = list(one_preemption_plans(pts))
+            line_one = list(one_preemption_plans(lpts))
+            if label == "tiny":
+                # line granularity, every single preemption point: subsumes the call-level one-preemption schedules
+                for ch in chunks(line_one, 120):
+                    jobs.append((spec, urls, ch, "one-preemption-exhaustive", "line"))
+                # two preemptions (call level): a lattice; the full square is ~10^6 schedules
+                allsq = sum(pts[t] * pts[u] for t in range(len(pts)) for u in range(len(pts)) if u != t)
+                stride = max(1, int((allsq / (14000.0 if full else 2000.0)) ** 0.5) + 1)
+                two = list(two_preemption_plans(pts, stride=stride))
+                for ch in chunks(two, 150):
+                    jobs.append((spec, urls, ch, "two-preemptions-lattice", "call"))
+                notes.append("%s %s: call points=%s line points=%s one-preemption(line, exhaustive)=%d "
+                             "two-preemption(call, stride %d of %d)=%d"
+                             % (label, urls, pts, lpts, len(line_one), stride, allsq, len(two)))
+                continue
+            if full and gi < 2:
+                sample, tag = line_one, "one-preemption-exhaustive"      # subsumes the call-level ones
+            else:
+                if quick and gi >= 2:
+                    sub, ctag = one[(gi + off) % 12::12], "one-preemption-sampled"
+                elif not full and gi >= 2:
+                    sub, ctag = one[(gi + off) % 4::4], "one-preemption-sampled"
+                else:
+                    sub, ctag = one, "one-preemption-exhaustive"
+                for ch in chunks(sub, 120):
+                    jobs.append((spec, urls, ch, ctag, "call"))
+                if full:
+                    st = 4 if len(urls) == 2 else 8
+                    sample, tag = line_one[off % st::st], "one-preemption-every-%dth" % st
+                else:
+                    sample = rng.sample(line_one, min(150 if quick else 400, len(line_one)))
+                    tag = "one-preemption-random-sample"
+            for ch in chunks(sample, 120):
+                jobs.append((spec, urls, ch, tag, "line"))
+            note = "%s %s: call points=%s line points=%s line-level one-preemption %s=%d" % (
+                label, urls, pts, lpts, tag, len(sample))
+            if full:
+                stride = max(1, int((2.0 * pts[0] * pts[1] / 3000.0) ** 0.5))
+                two = list(two_preemption_plans(pts[:2], stride=stride))
+                for ch in chunks(two, 150):
+                    jobs.append((spec, urls[:2], ch, "two-preemptions-lattice", "call"))
+                note += " two-preemption(call) lattice stride %d=%d" % (stride, len(two))
+            notes.append(note)
+    # random schedules with more preemptions, random datasets and request groups
+    n_random = 300 if quick else 5000 if full else 1500
+    for i in range(n_random):
+        if i % 3 == 0:
+            spec, urls = F.FIXED_SPEC, rng.sample(F.FIXED_REQUESTS, rng.choice([2, 3]))
+        else:
+            spec = rng.choice(specs)
+            urls = [F.rand_request(rng, spec)[0] for _ in range(rng.choice([2, 2, 3]))]
+        gran = "line" if i % 2 else "call"
+        scale = 4 if gran == "line" else 1
+        plan = [(rng.randrange(len(urls)),
+                 scale * rng.choice([0, 1, 2, 3, 5, 8, 13, 21, 34, 55, 89, rng.randint(0, 400)]) + rng.randrange(scale))
+                for _ in range(rng.randint(2, 12))]
+        jobs.append((spec, urls, [plan], "random", gran))
+    run_jobs(ctx, jobs)
     ctx.extra["schedule_groups"] = notes
+
+
+# ---- targeted line-level search around module-level state ---------------------------------------------
+def _profile(spec, url, labels):
+    """one solo line-level run of `url`: the points, and the indices of the points right after which (and right
+    before which) one of the containers `labels` changed"""
+    from props import c13_modstate as M
+
+    rec = []
+    state = {"n": 0, "objs": None, "last": None}
+    hits = []
+
+    def probe(t, k):
+        if state["objs"] is None or state["n"] % 64 == 0:
+            r = M.roots()
+            state["objs"] = [r.get(l) for l in labels]
+        state["n"] += 1
+        cur = tuple(M.fp(o) if o is not None else "<absent>" for o in state["objs"])
+        if state["last"] is not None and cur != state["last"]:
+            hits.append(k)
+        state["last"] = cur
+
+    out, n = solo_points(spec, url, gran="line", record=rec, probe=probe)
+    return out, rec, hits
+
+
+def _profile_job(job):
+    return _profile(*job)
+
+
+def _signature(url):
+    path, _, q = url.partition("?")
+    return (path.rsplit(".", 1)[-1], "(" in q, "&" in q, "[" in q)
+
+
+def _diverse(rng, urls, n):
+    """up to n urls, one per request signature (response kind, function, selection, hyperslab) first"""
+    groups = {}
+    for u in sorted(set(urls)):
+        groups.setdefault(_signature(u), []).append(u)
+    for g in groups.values():
+        rng.shuffle(g)
+    out = []
+    keys = sorted(groups)
+    while len(out) < n and any(groups[k] for k in keys):
+        for k in keys:
+            if groups[k] and len(out) < n:
+                out.append(groups[k].pop())
+    return out
+
+
+def targeted(ctx, rng, breaks, search=False, seen=()):
+    """`breaks`: [{"label", "spec", "url", "value"}] — requests that were seen to change a module-level container,
+    with a hash of the value they left in it.  For every such container: the functions that name it (static) or
+    were running when it changed (dynamic).  Request pairs (A, B) on the same dataset with different solo outcomes:
+      (1) the pairs with the longest common URL prefix (same variables through different branches: shared buffers);
+      (2) A from a signature-diverse set of ALL requests served on that dataset (`seen`: readers are victims too)
+          x B one representative of every distinct value left in the container (what B does to A is determined
+          by what B leaves behind: shared flags/scratch).
+    For every pair: every one-preemption schedule that switches A out at a line of one of those functions (and at
+    the lines around an observed write), lets B run to completion, then resumes A; for (1) also with the roles
+    swapped.  Failures are recorded with the schedule."""
+    from props import c13_modstate as M
+    import multiprocessing
+
+    by = {}
+    for b in breaks:
+        g = by.setdefault(b["label"], {}).setdefault(repr(b["spec"]), (b["spec"], {}))
+        g[1].setdefault(b["url"], b.get("value"))
+    jobs = []
+    notes = []
+    k1, n_a, n_cls, per_pair, n_groups = (24, 36, 12, 40, 2) if search else (8, 24, 12, 40, 1)
+    cap = 20000 if search else 6000          # targeted schedules per container
+    for label in sorted(by):
+        funcs = set(M.functions_naming([label]))
+        groups = sorted(by[label].values(), key=lambda g: -len(g[1]))
+        pairs = []          # (spec, a, b, both roles?)
+        cands = []
+        for spec, vals in groups:
+            urls = sorted(vals)
+            for i in range(len(urls)):
+                for j in range(i + 1, len(urls)):
+                    if _solo(spec, urls[i]) != _solo(spec, urls[j]):
+                        cands.append((-len(os.path.commonprefix([urls[i], urls[j]])), rng.random(), spec, urls[i], urls[j]))
+        cands.sort(key=lambda c: c[:2])
+        for _, _, spec, ua, ub in cands[:k1]:
+            pairs.append((spec, ua, ub, True))
+        for spec, vals in groups[:n_groups]:
+            aset = _diverse(rng, list(vals) + [u for sp, u in seen if sp == spec], n_a)
+            classes = {}
+            for u in sorted(vals):
+                classes.setdefault(vals[u], []).append(u)
+            reps = [rng.choice(classes[v]) for v in rng.sample(sorted(classes, key=repr), min(n_cls, len(classes)))]
+            for a in aset:
+                for b in reps:
+                    if a != b and _solo(spec, a) != _solo(spec, b):
+                        pairs.append((spec, a, b, False))
+        todo = []
+        for spec, ua, ub, both in pairs:
+            for u in ((ua, ub) if both else (ua,)):
+                if (spec, u, [label]) not in todo:
+                    todo.append((spec, u, [label]))
+        with multiprocessing.get_context("fork").Pool(max(2, min(14, (os.cpu_count() or 4) - 2))) as pool:
+            prof = {(repr(j[0]), j[1]): r for j, r in zip(todo, pool.map(_profile_job, todo, chunksize=1))}
+        # functions seen writing the container join the target set
+        for _, rec, hits in prof.values():
+            for k in hits:
+                for kk in (k - 1, k):
+                    if 0 <= kk < len(rec):
+                        funcs.add(rec[kk][:2])
+
+        def points(spec, u, cap):
+            """the lines right around an observed write always; the other lines of the functions strided to cap"""
+            _, rec, hits = prof[(repr(spec), u)]
+            near = set(k for h in hits for k in (h - 1, h, h + 1) if 0 <= k < len(rec))
+            rest = [k for k, p in enumerate(rec) if p[:2] in funcs and k not in near]
+            rest, _ = strided(rest, cap, rng.randrange(1 << 16))
+            return sorted(near | set(rest))
+
+        n_plans = 0
+        label_jobs = []
+        near_points = {key: set(k for h in r[2] for k in (h - 1, h, h + 1)) for key, r in prof.items()}
+        for spec, ua, ub, both in pairs:
+            plans = [[(0, k), (1, INF)] for k in points(spec, ua, per_pair * (4 if both else 1))]
+            if both:
+                plans += [[(1, k), (0, INF)] for k in points(spec, ub, per_pair * 4)]
+            label_jobs.append((spec, [ua, ub], plans))
+        total = sum(len(j[2]) for j in label_jobs)
+        keep = 1 if total <= cap else -(-total // cap)
+        o = rng.randrange(1 << 16)
+        for spec, pair, plans in label_jobs:
+            if keep > 1:
+                near = [pl for pl in plans if pl[0][1] in near_points.get((repr(spec), pair[pl[0][0]]), ())]
+                plans = near + [pl for i, pl in enumerate(plans) if (i + o) % keep == 0 and pl not in near]
+            n_plans += len(plans)
+            for ch in chunks(plans, 100):
+                jobs.append((spec, pair, ch, "targeted-line:%s" % label.rsplit(".", 1)[1], "line"))
+        notes.append("%s: functions %s; %d closest-prefix pairs (of %d candidates) + %d (request x value-class) pairs, "
+                     "%d targeted one-preemption schedules"
+                     % (label, sorted("%s:%s" % f for f in funcs), min(len(cands), k1), len(cands),
+                        len(pairs) - min(len(cands), k1), n_plans))
+    if jobs:
+        run_jobs(ctx, jobs)
+    ctx.extra["targeted_line_search"] = ctx.extra.get("targeted_line_search", []) + notes
